@@ -192,7 +192,11 @@ func TestACL(t *testing.T) {
 		}
 		// combinations: random populated requests whose names are all allowed, then one or two flipped
 		rng := rand.New(rand.NewSource(rec.Mix(rec.Seed(), name)))
-		for k := 0; k < 6; k++ {
+		nComb := 6
+		if rec.Thorough() {
+			nComb = 3000
+		}
+		for k := 0; k < nComb; k++ {
 			v := variants[k%len(variants)]
 			msg := gen.Populate(r.md, popOpts(rng, []string{v.allowed}, []string{"k"}))
 			gen.FillNamespaceSites(msg, v.allowed)
@@ -225,7 +229,11 @@ func TestACL(t *testing.T) {
 		var viol []rec.Violation
 		counts := map[string]int64{}
 		rng := rand.New(rand.NewSource(rec.Seed()))
-		for k := 0; k < 300; k++ {
+		nList := 300
+		if rec.Thorough() {
+			nList = 100000
+		}
+		for k := 0; k < nList; k++ {
 			var local []*workflowservice.DescribeNamespaceResponse
 			want := 0
 			for i := 0; i < rng.Intn(7); i++ {
